@@ -15,11 +15,6 @@ Definition valid_v2 (cur : N) (l : list (N * N)) : Prop :=
   sorted_from 0 l /\
   sumN (map snd l) = MAX_PERCENTAGE.
 
-Lemma sumN_cons x l : sumN (x :: l) = x + sumN l.
-Proof. reflexivity. Qed.
-Lemma sumN_nil : sumN [] = 0.
-Proof. reflexivity. Qed.
-
 Lemma validate_v2_spec cur : forall l last total,
   validate_v2 cur last total l = (true, total + sumN (map snd l)) <->
   (Forall (fun x => snd x <= MAX_PERCENTAGE /\ cur <= fst x /\ fst x <= cur + MAX_RELEASE_ROUND_DIFF) l /\
